@@ -246,6 +246,8 @@ def task_entry(*args, **kwds):
     res = orig(*args, **kwds)
     if rec is not None:
         rec["theta"] = _arr(getattr(res, "theta", None))
+        rec["args_changed"] = [i for i, a in enumerate(args) if isinstance(a, np.ndarray)
+                               and not (a.shape == rec["args"][i].shape and a.tobytes() == rec["args"][i].tobytes())]
     if fault is not None:
         fault["fired"] = True
         sim.fired("task_raise")
@@ -423,8 +425,7 @@ def _owned_snapshot(data, kwargs):
             objs[k] = kwargs[k]
     snap = {}
     for k, a in objs.items():
-        snap[k] = dict(bytes=np.array(a, copy=True, order="K").tobytes() if a.size else b"",
-                       value=np.array(a, copy=True), shape=a.shape, strides=a.strides,
+        snap[k] = dict(bytes=np.ascontiguousarray(a).tobytes(), shape=a.shape, strides=a.strides,
                        dtype=str(a.dtype), writeable=bool(a.flags.writeable), obj=id(a))
     if not isinstance(data, np.ndarray):
         snap["__list__"] = dict(ids=[id(s) for s in data], n=len(data))
@@ -438,8 +439,7 @@ def _owned_changes(objs, snap, data):
         if a.shape != s["shape"] or a.strides != s["strides"] or str(a.dtype) != s["dtype"] \
                 or bool(a.flags.writeable) != s["writeable"]:
             changes.append((k, "metadata"))
-        elif not np.array_equal(np.array(a, copy=True).view(np.uint8) if a.dtype.kind != "O" else a,
-                                s["value"].view(np.uint8) if a.dtype.kind != "O" else s["value"]):
+        elif np.ascontiguousarray(a).tobytes() != s["bytes"]:
             changes.append((k, "contents"))
     if "__list__" in snap:
         if len(data) != snap["__list__"]["n"] or [id(x) for x in data] != snap["__list__"]["ids"]:
